@@ -17,6 +17,7 @@ package hseq
 // embedded struct (by value or by pointer) followed by its own fields, consecutive IDs, root
 // offsets accumulated along value embedding
 //@ func unfold
+//@   loops 1
 //@   opt slices=owned
 //@   opt overflow=off
 //@   opt lemmas=drop_nth,drop_len
@@ -30,6 +31,7 @@ package hseq
 // New lists all fields of T (of *T's element), or the entries of the requested names in the
 // requested order; it fails loudly for a non-struct or an unknown name
 //@ func New
+//@   loops 1
 //@   opt overflow=off
 //@   opt lemmas=nth_upd,len_upd,drop_nth
 //@   ghost cat := pureof(rtypeof(T))
@@ -42,21 +44,25 @@ package hseq
 
 // lookups return the first matching entry of the listing or fail loudly
 //@ func ForType
+//@   loops 1
 //@   panics_when !hastype(seq, rtypeof(A))
 //@   ensures first_entry_of_that_type: result == firsttype(seq, rtypeof(A))
 //@   loop 0 invariant hastype(rest, rtypeof(A)) == hastype(seq, rtypeof(A)) && (hastype(seq, rtypeof(A)) ==> firsttype(rest, rtypeof(A)) == firsttype(seq, rtypeof(A)))
 
 //@ func ForName
+//@   loops 1
 //@   panics_when !hasname(seq, field)
 //@   ensures first_entry_of_that_name: result == firstname(seq, field)
 //@   loop 0 invariant hasname(rest, field) == hasname(seq, field) && (hasname(seq, field) ==> firstname(rest, field) == firstname(seq, field))
 
 //@ func ForNameMaybe
+//@   loops 1
 //@   ensures reports_absence: result1 == hasname(seq, field)
 //@   ensures first_entry_of_that_name: result1 ==> result == firstname(seq, field)
 //@   loop 0 invariant hasname(rest, field) == hasname(seq, field) && (hasname(seq, field) ==> firstname(rest, field) == firstname(seq, field))
 
 //@ func FMap
+//@   loops 1
 //@   opt overflow=off
 //@   opt lemmas=nth_upd,len_upd,drop_nth
 //@   ensures one_result_per_entry_in_order: len(result) == len(seq) && (forall j Int :: 0 <= j && j < len(seq) ==> result[j] == app(f, seq[j]))
